@@ -182,6 +182,10 @@ func checkC14(c *Ctx) Meta {
 	c.Rule("C14-COPY", "objects of the lock-carrying shared types (KeystoreManagerForPoC, AddrManager) and managed addresses (whose private key is written under the manager lock) are never copied by value anywhere in the repository", 1)
 	c.Rule("C14-PAIR", "every lock taken explicitly in the wallet is released on every path (deferred, or an Unlock before each return); manager methods never call other lock-taking manager methods (no stale snapshots between two critical sections, no self-deadlock)", 30)
 	checkLockPairing(c, "C14-PAIR", []string{pkgKeystore})
+	c.Rule("C14-SPAWN", "the wallet starts no goroutine that writes shared object state without a lock: every `go` statement in the wallet packages starts a function that writes no field of an object it did not allocate, or takes a mutex (the lock-discipline argument of this property is per call; the reference tree has no goroutine inside the wallet)", 1)
+	checkWalletSpawns(c, "C14-SPAWN", copyRulePkgs["C14"])
+	c.Rule("C14-LOCKSTATE", "the lock state changes only by Lock and by a successful Unlock: Unlock marks the manager unlocked only if no keystore failed, and a failed Unlock does not run the eraser (the C05 / C03 all-or-nothing rule as a premise of 'every history has a sequential explanation': a failed call has no effect)", 1)
+	checkUnlockAllOrNothing(c, "C14-LOCKSTATE")
 	checkNoNestedPublicCalls(c, "C14-PAIR")
 	// …nor a managed address: its private key is written under its manager's lock at every lock/unlock,
 	// and a copy (a value-receiver accessor, `v := *ma`) reads that field with no lock at all
